@@ -190,6 +190,10 @@ MUTANTS = [
      "                getattr(self, cstr).duration = value\n            self.__delay = value", "                getattr(self, cstr).duration = value + self.__step_time\n            self.__delay = value"),
     ("cfg_reducer_inplace_setter_inverted_when_true", "C14", 2000, "inferno/observe/reducers/base.py",
      "        self.__inplace = bool(value)\n\n\nclass FoldReducer", "        self.__inplace = bool(value) and self.__duration > 0\n\n\nclass FoldReducer"),
+    ("conv_presyn_receptive_wrong_order", "C05", 3000, "inferno/neural/connections/conv.py",
+     "\"b (c kh kw) l ... -> b (...) c kh kw l\",", "\"b (kh c kw) l ... -> b (...) c kh kw l\","),
+    ("dense_postsyn_receptive_flat_last", "C05", 3000, "inferno/neural/connections/linear.py",
+     "        return ein.rearrange(data, \"b ... -> b (...) 1 1\")", "        return ein.rearrange(data.flip(-1), \"b ... -> b (...) 1 1\")", 0),
     ("resize_keeps_head", "C13", 3000, INFRA,
      "            slices[dim] = slice(tensor.shape[dim] - size, None)\n            return tensor[*slices]", "            slices[dim] = slice(None, size)\n            return tensor[*slices]"),
     ("resize_no_align", "C13", 3000, INFRA,
